@@ -1,4 +1,5 @@
 pub mod c01;
+pub mod c02;
 pub mod c04;
 pub mod c07;
 pub mod c08;
@@ -22,6 +23,7 @@ pub fn lookup(id: &str) -> Option<(&'static str, RunFn, ReplayFn, &'static str, 
     // (id, run, replay, level)
     Some(match id {
         "C01" => ("C01", c01::run, c01::replay_any, "exploration", c01::worker),
+        "C02" => ("C02", c02::run, c02::replay, "exploration", c02::worker),
         "C04" => ("C04", c04::run, c04::replay, "exploration", c04::worker),
         "C07" => ("C07", c07::run, c07::replay, "exploration", c07::worker),
         "C08" => ("C08", c08::run, c08::replay, "exploration", c08::worker),
